@@ -166,8 +166,13 @@ def run_harness(binary, prop, work, cases=None, events=None, env=None, timeout=1
     r = subprocess.run(cmd, cwd=cwd or os.path.join(REPO, "cmd/keymasterd"), env=e, stdout=subprocess.PIPE,
                        stderr=subprocess.STDOUT, text=True, timeout=timeout + 60)
     open(work.path("harness.log"), "a").write(r.stdout)
-    if r.returncode != 0:
+    raced = "race detected during execution of test" in r.stdout
+    if r.returncode != 0 and not (raced and "GORACE" in (env or {}) and "--- FAIL: TestVerif" in r.stdout and "panic:" not in r.stdout):
         raise Inconclusive("harness run failed (exit %d):\n%s" % (r.returncode, r.stdout[-3000:]))
+    if raced:
+        # the testing package fails a test during which the race detector reported; the reports are in the GORACE log
+        # and are classified by the check
+        log("harness %s: the race detector reported during the run" % prop)
     log("harness %s ran in %.1fs" % (prop, time.time() - t0))
     return events, r.stdout
 
